@@ -4,7 +4,8 @@
 #include <librfn/messageq.h>
 
 static messageq_t *mq;
-static char *store;
+static char *store, *rawstore;
+static int misalign;      /* the caller's memory starts this many bytes off an 8-byte boundary */
 static int depth, msglen, slack;
 /* the driver's record of what the real queue handed out (oldest first) */
 static struct { char *p; int st; unsigned tag; } win[64];
@@ -24,10 +25,11 @@ static int slack_ok(void)
 static void reset(int d, int m, int s, int use_static)
 {
 	depth = d; msglen = m; slack = s;
-	free(store);
+	free(rawstore);
 	free(mq);
 	size_t len = (size_t)d * m + s;
-	store = malloc(len ? len : 1);
+	rawstore = malloc(len + misalign ? len + misalign : 1);    /* the queue's memory ends where the heap block ends */
+	store = rawstore + misalign;
 	memset(store, 0xA5, len);
 	mq = malloc(sizeof(*mq));
 	if (use_static && m == 12) {
@@ -158,6 +160,29 @@ static void gen(long seed, int nrandom, int nops, int both)
 	}
 	static const int sizes[] = { 1, 3, 4, 7, 12, 24, 1000, 4096 };   /* 32 x 4096 > 64 KiB: offsets beyond 16 bits */
 	drv_srand(seed);
+	/* the caller's memory at every offset from an 8-byte boundary, message sizes that are and are not multiples of the word size */
+	static const int msz[] = { 8, 16, 24, 4, 3, 2 }, mdep[] = { 1, 4, 32 };
+	for (misalign = 1; misalign < 8; misalign++)
+		for (int a = 0; a < 6; a++) for (int b = 0; b < 3; b++) for (int sl = 0; sl < 2; sl++) {
+			if (!both && (misalign + a + b + sl) % 2) continue;
+			reset(mdep[b], msz[a], sl ? (msz[a] > 3 ? 3 : msz[a] - 1) : 0, (a + b + sl) & 1);
+			systematic();
+		}
+	misalign = 0;
+	/* claims that fail many times in a row (more than any 8- or 16-bit counter of refusals could hold), then normal service */
+	static const long fails[] = { 127, 128, 129, 130, 255, 256, 257, 300, 66000 };
+	for (int i = 0; i < 9; i++) {
+		if (!both && fails[i] > 300 && i % 2) continue;
+		reset(1 + i % 3, 4, 0, i & 1);
+		for (int k = 0; k < depth; k++) do_claim();
+		for (long k = 0; k < fails[i]; k++) do_claim();
+		for (int round = 0; round < 3; round++) {
+			do_send(first_claimed(0)); do_receive(); do_release(); do_claim(); do_claim(); do_empty();
+		}
+		while (first_claimed(0)) do_send(first_claimed(0));
+		while (nwin) { do_receive(); do_release(); }
+		for (int k = 0; k <= depth; k++) do_claim();
+	}
 	/* long histories (several hundred claims) on depths that do not divide 256 */
 	static const int oddd[] = { 3, 5, 6, 7, 12, 31 };
 	for (int i = 0; i < 6; i++) {
